@@ -52,6 +52,19 @@ PosLess(p, q) == p[1] < q[1] \/ (p[1] = q[1] /\ FracLess(p[2], q[2]))
 AtSample(p) == p[2] = FZero
 SeqLast(s) == s[Len(s)]
 
+(* time grids used by the binding: increment between samples i and i+1 (i >= 1).  Positions are
+   grid independent; the grids only say how the harness turns positions into times. *)
+GridKinds == {"uni", "alt", "pow"}
+Dt(kind, i) == CASE kind = "uni" -> 1
+                 [] kind = "alt" -> IF i % 2 = 1 THEN 1 ELSE 2
+                 [] kind = "pow" -> IF i % 3 = 1 THEN 2 ELSE IF i % 3 = 2 THEN 4 ELSE 1
+\* Time(kind, i) = sum of Dt(kind, k) for k < i, in closed form
+Time(kind, i) == CASE kind = "uni" -> i - 1
+                   [] kind = "alt" -> 3 * ((i - 1) \div 2) + ((i - 1) % 2)
+                   [] kind = "pow" -> 7 * ((i - 1) \div 3) + (IF (i - 1) % 3 = 0 THEN 0 ELSE IF (i - 1) % 3 = 1 THEN 2 ELSE 6)
+TimeIsSumOfIncrements == \A kind \in GridKinds : /\ Time(kind, 1) = 0
+                                                 /\ \A i \in 1 .. 60 : Time(kind, i + 1) = Time(kind, i) + Dt(kind, i)
+
 ---------------------------------------------------------------------------
 (***************************************************************************)
 (* REQUIREMENT -- from the statement of C15, no reference to the algorithm *)
@@ -162,12 +175,11 @@ VerdictBracket(gs, d, mh, hits) ==
     IF AcceptsBracket(gs, d, mh, hits) THEN "ok"
     ELSE IF ~WithinLimit(mh, hits) THEN "max-hits-exceeded"
     ELSE IF \E j \in 1 .. Len(hits) - 1 : BracketKey(hits[j]) > BracketKey(hits[j + 1]) THEN "hits-out-of-time-order"
-    ELSE IF Len(hits) < NumRequired(gs, d) /\ (mh = 0 \/ Len(hits) < mh) THEN
-        IF /\ OnSurface(gs, Len(gs)) /\ OnSurface(gs, Len(gs) - 1)
-           /\ \A j \in 1 .. Len(hits) : hits[j] # <<Len(gs), 0>>
-           /\ AcceptsBracket(gs, d, mh, hits \o << <<Len(gs), 0>> >>)
-        THEN "last-sample-on-surface-after-on-surface"
-        ELSE "fewer-hits-than-required-crossings"
+    ELSE IF /\ OnSurface(gs, Len(gs)) /\ OnSurface(gs, Len(gs) - 1)
+            /\ \A j \in 1 .. Len(hits) : hits[j] # <<Len(gs), 0>>
+            /\ AcceptsBracket(gs, d, mh, hits \o << <<Len(gs), 0>> >>)
+         THEN "last-sample-on-surface-after-on-surface"
+    ELSE IF Len(hits) < NumRequired(gs, d) /\ (mh = 0 \/ Len(hits) < mh) THEN "fewer-hits-than-required-crossings"
     ELSE IF Len(hits) > Cardinality(MustPos(gs, d) \cup MayPos(gs, d)) THEN "more-hits-than-sign-changes"
     ELSE "hit-outside-bracketing-interval"
 
